@@ -24,6 +24,8 @@ type Plan struct {
 	// distinct_nontrivial (a probe relevant to the property fired).
 	Nontrivial func(r *RunResult) bool
 	Assumptions []string
+	MemLimit    uint64 // address-space fence for workers (bytes); 0 = none
+	DeathIsViolation bool // a worker dying reproducibly in a run is a violation (C18), not infrastructure
 }
 
 func wAll() map[string]int {
@@ -114,6 +116,8 @@ func Plans() map[string]*Plan {
 		p := baseProfile()
 		p.W[OpCompactRange] = 4
 		p.W[OpCompactAll] = 3
+		p.W[OpAddMulti] = 4
+		p.BadTxn = 0.08 // stale update indices, also inside multi-table Additions
 		ps["C05"] = &Plan{Prop: "C05", Level: "exploration",
 			Parts: []Part{
 				concPart("C05", "S-CONC", 8000, 400000, p, RunOpts{}),
@@ -292,6 +296,14 @@ func Plans() map[string]*Plan {
 			Nontrivial: func(r *RunResult) bool {
 				return probeAny(r, "grow-judged-decisions", "c17-judged-decision", "auto-compaction-commit")
 			}}
+	}
+	// ---- C18
+	{
+		ps["C18"] = &Plan{Prop: "C18", Level: "exploration", MemLimit: 6 << 30, DeathIsViolation: true,
+			Parts: []Part{{Name: "S-CORRUPT", Quick: 150000, Thorough: 8000000, Gen: func(seed uint64) *RunSpec { return GenCorrupt("C18", seed) }}},
+			Rule:  "S-CORRUPT: a valid table (real Writer; 0-60 refs of all kinds, 0-20 log entries, swarm Config incl. small blocks, both hash sizes) hit by 1-8 storage faults (bit flip, byte overwrite, truncation, zeroed aligned range, splice from another offset or table, u24/u16 length-field edits, footer-field edits with the CRC repaired, header copied to footer with CRC repaired, trailing garbage) and, in faulty-source mode, transient short/empty/failed ReadBlock results; workload NewReader + full scans + seeks + RefsFor through the library's ByteBlockSource, through a clamping simulated-disk source, and through NewStack/Merged over a directory holding the damaged table; non-trivial = the damaged bytes differ from the original; distinct = distinct damaged byte strings",
+			Nontrivial: func(r *RunResult) bool { return r.Probes["corrupt-noop"] == 0 && r.Probes["corrupt-unbuildable"] == 0 },
+			Assumptions: []string{"arbitrary byte strings are reached only as mutations of valid tables; there is no coverage guidance", "pure CPU loops are caught by iteration caps and a 120 s per-run watchdog"}}
 	}
 	return ps
 }
